@@ -154,6 +154,7 @@ func RunC02(run *core.Run, backend *SQLBackend, queries []Query, b Bounds) {
 			ensureKinds(km, kindIDs, dd)
 		}
 		var evals, nonEmpty, compared int64
+		unexplained := 0
 		outside := false
 		judge := func(g *gm.Graph) bool {
 			evals++
@@ -205,7 +206,19 @@ func RunC02(run *core.Run, backend *SQLBackend, queries []Query, b Bounds) {
 						continue
 					}
 					run.Add("disagreements_checked", 1)
-					for _, class := range classifyC02(m, q, g, ref, ob.Rows, ov.Rows, v.name, appliedLowerings(v.res, &plan)) {
+					generic := featureClass("configuration-changes-result:"+v.name, q)
+					var classes []string
+					if unexplained >= 3 {
+						// the class of this query is settled (see RunC01): skip the search for an explanation
+						classes = []string{generic}
+						run.Add("disagreements_not_searched_after_three_unexplained", 1)
+					} else {
+						classes = classifyC02(m, q, g, ref, ob.Rows, ov.Rows, v.name, appliedLowerings(v.res, &plan))
+						if len(classes) == 1 && classes[0] == generic {
+							unexplained++
+						}
+					}
+					for _, class := range classes {
 						run.Report(core.Violation{
 							Class:    class,
 							Summary:  fmt.Sprintf("%s: configuration %s vs unoptimised on a graph with %d nodes / %d edges: %s", q.Text, v.name, len(g.Nodes), len(g.Edges), why),
